@@ -24,6 +24,18 @@ def streams : List (String × Stream) := ([] : List (String × Stream))
   |>.cons ("query", CypherStream.stream)
   |>.cons ("querystat", CypherStream.statStream)
   |>.cons ("update", UpdateStream.stream)
+import Nervus.Driver.BTree
+import Nervus.Driver.Pager
+import Nervus.Driver.Vacuum
+open Nervus.Driver
+
+/-- stream registry: one line per stream (kept one-per-line so that merges are unions) -/
+def streams : List (String × Stream) := [
+  ("okey", OKeyStream.stream),
+  ("btree", BTreeStream.stream),
+  ("pager", PagerStream.stream),
+  ("vacuum", VacuumStream.stream)
+]
 
 def main (args : List String) : IO UInt32 := do
   match args with
